@@ -89,8 +89,13 @@ def correspondence(ctx, model_ok, tmp):
         nid = 1
         ops = []
         interesting = False
-        for step in range(rng.randint(12, 30)):
+        n_steps_h = rng.randint(12, 30)
+        force_keep = False
+        for step in range(n_steps_h):
             r = rng.random()
+            if step == n_steps_h - 2 and o_ds and rng.random() < 0.6:
+                # towards the end of most histories: a run with stored datasets is removed while its artifacts stay (unstore=False)
+                r, force_keep = 0.9, True
             live = sorted(o_reg)
             if r < 0.32 or not live:
                 t, k, c = rng.randrange(2), rng.choice([1, 2, 3]), rng.randrange(3)
@@ -176,7 +181,10 @@ def correspondence(ctx, model_ok, tmp):
                          f"orphan:{ops}", {"kind": "history", "ops": ops + [line]})
             elif r < 0.93:
                 c = rng.randrange(3)
-                if rng.random() < 0.3:
+                if force_keep:
+                    stored_runs = sorted({info[i][2] for i in o_ds})
+                    c = rng.choice(stored_runs) if stored_runs else c
+                if rng.random() < 0.3 and not force_keep:
                     # a removal that must be refused as a whole: runs[c] is still a child of the chain, and another
                     # run comes first in the same call; nothing may change, now or at a later trash emptying
                     c0 = (c + 1) % 3
@@ -198,8 +206,10 @@ def correspondence(ctx, model_ok, tmp):
                     # the run is a child of the chain: take it out first (documented requirement), then remove, then re-create it
                     kids = [x for x in reg.getCollectionChain(chain) if x != runs[c]]
                     reg.setCollectionChain(chain, kids)
+                    keep_files = False
+                    force_keep_now, force_keep = force_keep, False
                     try:
-                        if rng.random() < 0.4:
+                        if rng.random() < 0.3 and not force_keep_now:
                             # the removal happens inside a caching context that already knows the run: the same context must not
                             # go on listing the run, answering for it, or accepting it as a search path
                             from lsst.daf.butler import MissingCollectionError as _MCE
@@ -227,11 +237,16 @@ def correspondence(ctx, model_ok, tmp):
                                 if still:
                                     viol(f"after {ops[-3:]}: removeRuns({c}) inside a caching context: " + "; ".join(still), f"rmrun-cached:{ops}",
                                          {"kind": "history", "ops": ops + [line], "problems": still})
+                        elif force_keep_now or rng.random() < 0.3:
+                            # the run goes, its artifacts stay where they are: the datastore must forget the datasets all the same
+                            b.removeRuns([runs[c]], unstore=False)
+                            keep_files = True
+                            ctx.count("rmrun-unstore-false")
                         else:
                             b.removeRuns([runs[c]], unstore=True)
                         out = "ok"
                         gone = {i for i in o_reg if info[i][2] == c}
-                        for s_ in (o_reg, o_ds, o_disk, o_tag, o_cal):
+                        for s_ in (o_reg, o_ds, o_tag, o_cal) + (() if keep_files else (o_disk,)):
                             s_.difference_update(gone)
                         interesting = interesting or bool(o_reg)
                     except Exception as e:
@@ -256,6 +271,7 @@ def correspondence(ctx, model_ok, tmp):
             # ---- probes: every dataset ever created
             allrefs = [refs[i] for i in sorted(refs)]
             many = b._exists_many(allrefs, full_check=True)
+            many_quick = b._exists_many(allrefs, full_check=False)
             on_disk = listing()
             for i in sorted(refs):
                 ex = b.exists(refs[i], full_check=True)
@@ -273,6 +289,11 @@ def correspondence(ctx, model_ok, tmp):
                     problems.append(f"stored() = {b.stored(refs[i])}, truth {i in o_ds and i in o_disk}")
                 if bool(ex) != (fl == "RDA"):
                     problems.append(f"truth value of exists() is {bool(ex)} with flags {fl}")
+                # the quick form (no look at the artifact): true exactly when registry and datastore both know the dataset
+                exq = b.exists(refs[i], full_check=False)
+                if bool(exq) != (i in o_reg and i in o_ds) or bool(many_quick[refs[i]]) != (i in o_reg and i in o_ds):
+                    problems.append(f"exists(full_check=False) is {exq!r} (truth value {bool(exq)}), _exists_many(full_check=False) {many_quick[refs[i]]!r}; "
+                                    f"registry knows it: {i in o_reg}, datastore knows it: {i in o_ds}")
                 rel = os.path.relpath(path[i], root)
                 # an artifact may only survive if no later dataset re-used the path
                 if (rel in on_disk) != (i in o_disk or any(path[j] == path[i] and j in o_disk for j in refs)):
